@@ -250,6 +250,7 @@ def ceval_type(t, r, ffi, lines, expect, ctxs, fails, tags, samples):
     expect.append(f"ok {len(image)}")
     ctxs.append(ctx)
     n = 0
+    recheck = []
     cname = cls.__name__
     for steps, leaf in paths(t):
         names = fun_names(cname, steps, leaf)
@@ -281,6 +282,8 @@ def ceval_type(t, r, ffi, lines, expect, ctxs, fails, tags, samples):
                     expect.append(f"addr {caddr - int(obj._offset)} 0")
                     ctxs.append(c2)
                     want = pv["addr"] if kind == "getp" else pv.get("member")
+                    if kind == "getp" and len(recheck) < 12:
+                        recheck.append((fn, kw, caddr, c2))
                     if want is not None and caddr != want:
                         fails.append(common.Failure("oracle", f"C02:{kind}-address", f"{fn}{kw} on {s[:200]} (value {repr(d)[:200]}): C returns buffer offset {caddr}, the Python accessor reports {want}", c2))
                 elif kind == "get":
@@ -304,6 +307,27 @@ def ceval_type(t, r, ffi, lines, expect, ctxs, fails, tags, samples):
                     want = pv.get(kind)
                     if want is not None and int(res) != want:
                         fails.append(common.Failure("oracle", f"C02:{kind}", f"{fn}{kw} on {s[:200]} (value {repr(d)[:200]}): C returns {int(res)}, Python reports {want}", c2))
+    # ---- the buffer grows (storage is relocated): the same accessors must address the same object bytes in the NEW storage
+    if recheck:
+        before = bytes(buf.to_bytearray(0, buf.capacity))
+        oldcap = buf.capacity
+        buf.allocate(buf.capacity + 16)
+        base2 = int(ffi.cast("size_t", ffi.from_buffer(buf.buffer)))
+        mark = (before[int(obj._offset)] + 1) % 128
+        buf.update_from_buffer(int(obj._offset), bytes([mark]))          # written into the current storage only
+        for fn, kw, rel, c2 in recheck:
+            try:
+                res = getattr(kctx.kernels, fn)(obj=obj, **kw)
+            except Exception as ex:
+                fails.append(common.Failure("oracle", "C02:call-fails:after-growth", f"{fn}{kw} on {s[:200]} after buffer growth: {type(ex).__name__} {str(ex)[:200]}", c2))
+                continue
+            caddr2 = int(ffi.cast("size_t", res)) - base2
+            tags["ceval.getp.after-growth"] += 1
+            n += 1
+            if caddr2 != rel:
+                fails.append(common.Failure("oracle", "C02:getp-address:after-growth", f"{fn}{kw} on {s[:200]}: after the buffer grew from {oldcap} to {buf.capacity} bytes the accessor returns an address {caddr2} bytes from the current storage, the Python accessor reports {rel} (stale storage?)", c2))
+                break
+        buf.update_from_buffer(int(obj._offset), before[int(obj._offset): int(obj._offset) + 1])
     if n and len(samples) < 6:
         samples.append(f"ceval {s[:160]} value {repr(d)[:80]}: {n} accessor calls")
     return n
